@@ -376,6 +376,15 @@ func factsOn(cond ast.Expr, branch bool) []fact {
 		if x.Op == token.NOT {
 			return factsOn(x.X, !branch)
 		}
+	case *ast.Ident, *ast.CallExpr:
+		// a boolean temporary or an unexported single-expression helper stands for its
+		// defining expression (canon.go): decompose that one
+		if under, ok := astSubst[x]; ok {
+			if fs := factsOn(under, branch); len(fs) > 0 {
+				return fs
+			}
+			return nil
+		}
 	case *ast.BinaryExpr:
 		if x.Op == token.LAND {
 			if branch {
